@@ -389,19 +389,24 @@ func intersectionExact(a0, a1, b0, b1 Point) Point {
 		// those two we return the one that is lexicographically smallest.
 		x = r3.Vector{X: 10, Y: 10, Z: 10} // Greater than any valid S2Point
 
-		aNorm := Point{aNormP.Vector()}
-		bNorm := Point{bNormP.Vector()}
-		if OrderedCCW(b0, a0, b1, bNorm) && a0.Cmp(x) == -1 {
-			return a0
+		// p (on the common great circle) lies on the closed edge (q0,q1) with
+		// normal n iff it is not to the right of q0 nor to the left of q1.
+		// This is decided exactly; the endpoints of one edge that coincide in
+		// direction with an endpoint of the other are all candidates.
+		inEdge := func(p, q0, q1, n r3.PreciseVector) bool {
+			return q0.Cross(p).Dot(n).Sign() >= 0 && p.Cross(q1).Dot(n).Sign() >= 0
 		}
-		if OrderedCCW(b0, a1, b1, bNorm) && a1.Cmp(x) == -1 {
-			return a1
+		if inEdge(a0P, b0P, b1P, bNormP) && a0.Cmp(x) == -1 {
+			x = a0.Vector
 		}
-		if OrderedCCW(a0, b0, a1, aNorm) && b0.Cmp(x) == -1 {
-			return b0
+		if inEdge(a1P, b0P, b1P, bNormP) && a1.Cmp(x) == -1 {
+			x = a1.Vector
 		}
-		if OrderedCCW(a0, b1, a1, aNorm) && b1.Cmp(x) == -1 {
-			return b1
+		if inEdge(b0P, a0P, a1P, aNormP) && b0.Cmp(x) == -1 {
+			x = b0.Vector
+		}
+		if inEdge(b1P, a0P, a1P, aNormP) && b1.Cmp(x) == -1 {
+			x = b1.Vector
 		}
 	}
 
